@@ -172,6 +172,12 @@ def run_herd(ctx, c):
             ctx.fail("feeding-offered-different-supply-than-given", "month %d offered feed %.6g grass %.6g, supplied %.6g %.6g" % (m, f, g, feed[m], grass[m]), case)
         unsatisfied_before = False
         for sp in rec["species"]:
+            want = herd.ref_need_per_head(c["code"], sp["species_name"], sp["lsu"])
+            if abs(sp["need_per_head"] - want) > 1e-12 * want:
+                ctx.fail("per-head-requirement-differs-from-livestock-units-x-regional-factor",
+                         "month %d %s: the feeding step works with %.9g billion kcals per head, tabulated livestock units x one LSU x regional factor = %.9g"
+                         % (m, sp["type"], sp["need_per_head"], want), case)
+            sp = dict(sp, need_per_head=want)
             g2, f2, delivered, rq = ref_feed(sp["herd"], sp["need_per_head"], sp["ruminant"], g, f, sp["eff_grass"], sp["eff_feed"])
             took_feed = f - f2
             if took_feed > TOL * max(1.0, f) and unsatisfied_before:
